@@ -15,6 +15,7 @@ package surveyor
 //@
 //@ struct socket
 //@   invariant sendQLen >= 0
+//@   invariant forall(k, ctxs, k.s == this)
 //@   lock Mutex level 20
 //@   guarded_by Mutex: ctxs surveys pipes closed sendQLen
 //@   immutable: master
